@@ -835,7 +835,8 @@ def _replay_contains():
         warnings.simplefilter("ignore")
         for feat in ("emodulus", "time", "fl1_max_ctc", "area_um_raw", "volume"):
             for (sec, key) in DEFAULTS:
-                ds = _native_ds(full)
+                # two fluorescence channels: with three and an incomplete matrix reading raises (finding D16)
+                ds = _native_ds(dict(full, has_feat_fl3_max=False) if feat.startswith("fl") else full)
                 if feat not in ds or key not in ds.config[sec]:
                     continue
                 if _outcome(ds, feat)[0] == "raise":
